@@ -109,7 +109,8 @@
 typedef struct lib {
   const char *name;
   int sse2, mmc, mzdcache, openmp, knobs;
-  mmb_t *mmc_cache; /* the 16-slot block cache of this variant (NULL when compiled out); read-only use by the harness */
+  mmb_t *mmc_cache; /* the block cache of this variant (NULL when compiled out); read-only use by the harness, for reach probes only */
+  int mmc_nblocks;  /* its number of slots (__M4RI_MMC_NBLOCKS of that tree; 0 if the macro is gone: the probes are then skipped) */
 #define X(r, n, a) r(*n) a;
   LIBFUNCS(X)
   LIBFUNCS_OMP(X)
